@@ -151,6 +151,8 @@ def build(case):
     form = p["form"]
     ncalls = p["ncalls"]
     fixed = p.get("probed")
+    focus = p.get("focus", "y")  # instance form: the focus may be a meta-variable of the method
+    ftag = "" if focus == "y" else ":" + focus
 
     def run(x, psel, calls):
         ns, _ = load(TMPL)
@@ -170,7 +172,7 @@ def build(case):
                 assume(pi == fixed)
             probed = POP[pi]
             ns["obj"] = probed
-            text, population = ("obj.meth > y" if form == "instance" else "poll > obj.meth > y"), POP
+            text, population = (f"obj.meth > {focus}" if form == "instance" else "poll > obj.meth > y"), POP
             fires = lambda o: o is probed  # noqa: E731
             selfname = "this" if pi == 7 else "self"
         elif form == "twice":
@@ -281,13 +283,13 @@ def build(case):
                 detail = pk
                 if cls == "extra" and probed is not None:
                     # which kind of other receiver fired?
-                    others = [d for d in got if not any(d["y"] == w for w, _o in exp)] or got
                     detail = pk + ":equal-but-distinct" if pk.startswith("eq") else pk
-                require(False, f"{len(got)} events for {len(exp)} calls whose receiver is the probed object ({pk})",
-                        {"fp": f"C13:{form}:events:{cls}:{detail}"})
+                require(False, f"{len(got)} events for {len(exp)} calls whose receiver is the probed object ({pk})"
+                        + (f" with focus {focus}" if ftag else ""), {"fp": f"C13:{form}{ftag}:events:{cls}" + ("" if ftag else f":{detail}")})
             for d, (want, o) in zip(got, exp):
-                require(d["y"] == want, "event carries a wrong value", {"fp": f"C13:{form}:value"})
-                if probed is not None:
+                require(d[focus] == (want if focus in ("y", "#value") else True), "event carries a wrong value",
+                        {"fp": f"C13:{form}{ftag}:value"})
+                if probed is not None and focus != "#enter":  # (at #enter the receiver is not bound yet)
                     require(selfname in d and d[selfname] is o, "the event does not report the receiver",
                             {"fp": f"C13:{form}:receiver-not-reported:{pk}"})
         finally:
@@ -319,6 +321,10 @@ def cases(tier, seed):
                    "budget_s": 3000 if th else 200})
         cs.append({"id": f"nested_step:probed={probed}", "params": {"form": "nested_step", "ncalls": nc, "probed": probed},
                    "budget_s": 3000 if th else 200})
+    for focus in ("#enter", "#value", "#exit"):
+        for probed in ((0, 2, 4, 7, 9) if not th else range(10)):
+            cs.append({"id": f"instance:focus={focus}:probed={probed}",
+                       "params": {"form": "instance", "ncalls": 2, "probed": probed, "focus": focus}, "budget_s": 3000 if th else 200})
     cs.append({"id": "instance:twin", "params": {"form": "instance", "ncalls": 2, "probed": 0}, "vacuity_twin": True,
                "stop_on_refute": True, "budget_s": 60})
     cs.append({"id": "class:twin", "params": {"form": "class", "ncalls": 2}, "vacuity_twin": True, "stop_on_refute": True,
